@@ -338,7 +338,9 @@ func (cc *grpcClientConn) Receive(msg any) error {
 		return err
 	}
 	// See if the server sent an explicit error in the HTTP or gRPC-Web trailers.
-	mergeHeaders(
+	// Receive may be called again after the stream has ended, so the trailers
+	// are assigned rather than appended.
+	setHeaders(
 		cc.responseTrailer,
 		cc.readTrailers(&cc.unmarshaler, cc.duplexCall),
 	)
